@@ -48,6 +48,17 @@ def _constant_expr(node):
     return False
 
 
+def _table_expr(node):
+    """a literal table: dict / tuple / list / set displays whose leaves are constants or (dotted) names"""
+    if isinstance(node, ast.Dict):
+        return bool(node.keys) and all(k is not None and _table_expr(k) for k in node.keys) and all(_table_expr(v) for v in node.values)
+    if isinstance(node, (ast.Tuple, ast.List, ast.Set)):
+        return all(_table_expr(e) for e in node.elts)
+    if isinstance(node, ast.Constant):
+        return True
+    return _constant_expr(node)
+
+
 class _ModuleScope:
     """stand-in for `cur` while a module-level expression is evaluated"""
     def __init__(self, module, like):
@@ -133,7 +144,8 @@ class ExprMixin:
                 if self.symbolic_globals:
                     return nf.sym(f'{m.name}.{nm}')
                 return self.e_Constant(val, None)
-            if _constant_expr(val):
+            if _constant_expr(val) or (getattr(self, 'literal_tables', False) and isinstance(val, (ast.Dict, ast.Tuple, ast.List, ast.Set))
+                                       and _table_expr(val)):
                 # a module constant derived from literals and other constants (e.g. -2j*pi): its value
                 prev, self.cur = self.cur, _ModuleScope(m, self.cur)
                 try:
